@@ -1620,7 +1620,6 @@ func (f *Flow) RangeVarOf(n ast.Node) *ast.RangeStmt {
 	return f.rangeVars[id.Pos()]
 }
 
-
 // evalBoolUnder evaluates a boolean expression built from !, && and || in three-valued logic under a valuation of
 // its atoms.
 func evalBoolUnder(e ast.Expr, val func(atom ast.Expr) (bool, bool)) (bool, bool) {
@@ -1649,7 +1648,6 @@ func evalBoolUnder(e ast.Expr, val func(atom ast.Expr) (bool, bool)) (bool, bool
 	}
 	return val(e)
 }
-
 
 // KnownNonNil: during the evaluation of a query's Target, is local variable v known to be non-nil on the path that
 // reached the point (a branch edge `v != nil` was taken and v not assigned since, or v is the refined variable of a
